@@ -53,3 +53,26 @@ Example trace_example :
   trace [0;0;1;2]%nat (Some [false;true;false;false]) None (fun _ _ => 1) 5 3%nat 0 = Some ([3;2;1]%nat, 2) /\
   trace [0;0;1;2]%nat None (Some 1) (fun _ _ => 1) 5 3%nat 0 = Some ([3;2]%nat, 1).
 Proof. vm_compute. auto. Qed.
+
+(* core._trace, core.path and core.snap regenerated from the source ARE the model (the step length gis_utils.distance stays an
+   abstract function, 1 per step when lengths are counted in cells) *)
+From PF Require Import GenCoreTraceEq GenCorePathEq.
+From PFG Require Import GenCore.
+Theorem gen__trace_eq : forall (fuel idx0 : nat) (nxt : list nat) (ncol_given : bool) (mask : option (list bool)) (maxlen : option Z)
+  (real_length : bool) (steplen : nat -> nat -> Z),
+  gen__trace fuel idx0 nxt ncol_given mask maxlen real_length steplen =
+  trace nxt mask maxlen (fun a b => if (real_length && ncol_given)%bool then steplen a b else 1%Z) fuel idx0 0%Z.
+Proof. exact GenCoreTraceEq.gen__trace_eq. Qed.
+Print Assumptions gen__trace_eq.
+Theorem gen_path_eq : forall (fuel : nat) (idxs0 nxt : list nat) (ncol_given : bool) (mask : option (list bool)) (maxlen : option Z)
+  (real_length : bool) (steplen : nat -> nat -> Z),
+  gen_path fuel idxs0 nxt ncol_given mask maxlen real_length steplen =
+  path_model nxt mask maxlen (fun a b => if (real_length && ncol_given)%bool then steplen a b else 1%Z) fuel idxs0.
+Proof. exact GenCorePathEq.gen_path_eq. Qed.
+Print Assumptions gen_path_eq.
+Theorem gen_snap_eq : forall (fuel : nat) (idxs0 nxt : list nat) (ncol_given : bool) (mask : option (list bool)) (maxlen : option Z)
+  (real_length : bool) (steplen : nat -> nat -> Z),
+  gen_snap fuel idxs0 nxt ncol_given mask maxlen real_length steplen =
+  snap_model nxt mask maxlen (fun a b => if (real_length && ncol_given)%bool then steplen a b else 1%Z) fuel idxs0.
+Proof. exact GenCorePathEq.gen_snap_eq. Qed.
+Print Assumptions gen_snap_eq.
